@@ -83,4 +83,4 @@ def geometry_immut(ctx, report):
     mod = ctx.index.by_path["pycaption/geometry.py"]
     n = 0
     for name in ("Size", "Point", "Stretch", "Padding", "Alignment", "Layout", "Region"):
-        n += S.rule_immut_class(report, mod.classes[name], fresh_ctor_methods=("from_points", "from_extent"), clause="3")
+        n += S.rule_immut_class(report, mod.classes[name], fresh_ctor_methods=("from_points", "from_extent"), clause="3", index=ctx.index)
